@@ -1,8 +1,8 @@
 package main
 
 import (
-	"go/token"
 	"fmt"
+	"go/token"
 	"go/types"
 	"strings"
 
@@ -375,7 +375,10 @@ func runC17(c *Check) {
 			return strings.HasSuffix(fnName(fn), "publishBlockInternal") || strings.Contains(fnName(fn), "publishBlockInternal$bound")
 		}})
 		c.NoteGraph(g)
-		isDelay := func(t *Term) bool { return t != nil && strings.Contains(t.String(), "time.Until(") }
+		// the delay: a duration computed with time.Until (possibly inside a helper)
+		isDelay := func(t *Term) bool {
+			return t != nil && p.DeepContains(t, func(x *Term) bool { return x.IsCall("time.Until") }, 2)
+		}
 		chanGate := func(t *Term) bool {
 			// <-time.After(delay)
 			if t.IsCall("time.After") && len(t.Args) == 1 && isDelay(t.Args[0]) {
